@@ -131,6 +131,18 @@ def gen(rng, tier):
             cuts = sorted(rng.randrange(0, n + 1) for _ in range(rng.randrange(2, 6)))
             yield split_case(rng, data, cuts, depth, flags)
         yield split_case(rng, data, list(range(1, n)), depth, flags)
+    # a token of several KiB earlier in the document (the tokener's scratch buffer has grown), then a cut inside a later
+    # string, number or literal: the part of the token already consumed lives in that buffer (round-8 seed C03-13)
+    for big in ((4100,) if tier == "quick" else (4090, 4100, 5000, 9000)):
+        for tail in (b'"abcdefgh"', b"12345678", b"true", b"null", b"-1.5e10", b'{"k":"vvvv"}', b'"a\\nb"'):
+            head = b'["' + b"x" * big + b'",'
+            data = head + tail + b"]"
+            for k in range(len(head), len(data) + 1):
+                yield split_case(rng, data, [k], 32, 0)
+            yield split_case(rng, data, [len(head) // 2, len(head) + len(tail) // 2], 32, 1)
+        data = b'"' + b"y" * big + b'"'
+        for k in (big // 2, big - 1, big, big + 1):
+            yield split_case(rng, data, [k], 32, 0)
     # streams of several documents resumed at the reported end
     for _ in range(150 if tier == "quick" else 3000):
         flags = rng.choice([0, 2, 3, 16])
